@@ -711,7 +711,7 @@ SRV_PROJ = {
     # C07 is judged on the clients' own receipts (own:*) plus the mechanism-specific divergences
     "C07": r"^(own:|sweep:in-flight|token:|capacity:accepted|apierr:)",
     "C08": r"^(ready:|batch:|pollerr:|apierr:|bytes:missing|bytes:differ|yield:|write:|invariant|hang)",
-    "C09": r"^(pollerr:|apierr:|ready:|sweep:dead|fds:count|batch:|yield:|bytes:missing|hang)",
+    "C09": r"^(pollerr:|apierr:|ready:|sweep:dead|fds:count|batch:|yield:|bytes:missing|hang|own:closed-without-cause)",
     "C10": r"^(capacity:|fds:|sweep:|eof:|bytes:|pollerr:)",
     "C18": r"^(kill:|ready:|pollerr:|batch:|hang)",
     "C04": r"^(bytes:|yield:)",
